@@ -192,11 +192,18 @@ impl SearchFilters {
     fn special_filter_to_bytes(name: &str, filters: &HashMap<Discriminant<Filter>, Filter>) -> Vec<u8> {
         let mut bytes = Vec::new();
 
-        if !filters.is_empty() {
+        // A filter without conditions (no tags) is not sent, so it must not be counted either
+        let filters_bytes: Vec<Vec<u8>> = filters
+            .values()
+            .map(Filter::to_bytes)
+            .filter(|filter_bytes| !filter_bytes.is_empty())
+            .collect();
+
+        if !filters_bytes.is_empty() {
             bytes.extend(name.as_bytes());
-            bytes.extend(filters.len().to_string().as_bytes());
-            for filter in filters.values() {
-                bytes.extend(filter.to_bytes());
+            bytes.extend(filters_bytes.len().to_string().as_bytes());
+            for filter_bytes in filters_bytes {
+                bytes.extend(filter_bytes);
             }
         }
 
